@@ -2,24 +2,206 @@
 denote the same type.
 
 Differential: per random declaration context, the same cdef is loaded in an
-in-line FFI (pycparser-based parser) and emitted with emit_python_code() and
-imported (C parser with populated tables).  Grammar-generated type strings
-(well-formed and near-miss) go through both: both must reject, or both accept
-with the same meaning (identical ctype object for non-aggregates; same kind and
-name for aggregates).  'Reject' = any exception (the class is C30's business).
+in-line FFI (pycparser-based parser) and given to the C parser with populated
+tables in one of three ways: emitted with emit_python_code() and imported
+(out-of-line ABI module), split over a chain of out-of-line modules that
+ffi.include() each other, or compiled as an API-mode extension module.
+Grammar-generated type strings (well-formed and near-miss) go through both:
+both must reject, or both accept with the same meaning (identical ctype object
+for non-aggregates; same kind and name for aggregates).  'Reject' = any
+exception (the class is C30's business).
+
+Besides the random strings every context gets *directed probes* (input
+classes that random token mutation reaches too rarely or that would otherwise be
+filed under a recorded leniency class): all standard type names, names that are
+one character away from a declared name, function typedefs, constants of an
+included ffi as array length, trailing tokens, malformed numbers, function types
+through the callback() entry point, and sizeof/alignof/getctype/cast as
+alternative entry points of the same parsers.
 """
-import os, sys, random
+import os, sys, random, re
 from vlib import core, gen_cdef as GC, gen_tstr as TS
 
 RULE = ("case = (declaration context, type string); contexts: ~10 typedefs/structs/unions/enums/"
-        "constants; strings from the shared declarator grammar (specifier permutations, cv "
+        "constants, half of them renamed to adversarial identifiers (prefix chains, keyword and "
+        "standard-typename look-alikes, names shared between tag and ordinary namespace) plus "
+        "anonymous/opaque/function/array typedefs; C-parser side = out-of-line module, include() "
+        "chain of 2-3 out-of-line modules, or compiled API module; strings from the shared "
+        "declarator grammar (specifier permutations, cv "
         "qualifiers anywhere, pointers, arrays with decimal/octal/hex/named lengths, function "
         "pointers with fixed/void/variadic parameters and optional names, __cdecl/__stdcall, "
-        "redundant and nested grouping parentheses) plus token-level near-miss mutants; distinct = "
+        "redundant and nested grouping parentheses) plus token-level near-miss mutants; extended "
+        "strings: every standard type name, boundary/zero/negative/huge array lengths, function-typed "
+        "parameters, long parameter lists, deep nesting, whitespace variation; directed probes per "
+        "context; distinct = "
         "(context, string); non-trivial = string has a declarator (pointer/array/function)")
 ASSUMPTIONS = ["strings naming an undeclared struct/union/enum tag are not generated (the in-line FFI creates an opaque type, the C parser has no entry: outside the stated grammar)",
-               "which exception class escapes on rejection is not compared (property C30)"]
+               "which exception class escapes on rejection is not compared (property C30)",
+               "__stdcall and __cdecl function pointers are the same ctype on this platform (non-Windows), so the calling convention itself is not observable",
+               "type strings stay far below the C parser's fixed opcode budget (FFI_COMPLEXITY_OUTPUT)",
+               "the outermost length of an array-typed *parameter* is always a valid length (0..SSIZE_MAX): the in-line parser drops it (the parameter becomes a pointer), so a negative or too large one there is an ill-formed string that only the in-line parser accepts (recorded class)",
+               "in an include() chain all declarations with numbered anonymous nested aggregates are kept in one module (modules number them independently and '$1' of the includer resolves to the included module's '$1': a defect of include(), not of the parsers)",
+               "a function-typed parameter always has parameters of its own, and the qualifiers of the first parameter of a function declarator are written after its specifiers in the random strings (the qualifier-first form has its own directed probe)"]
 SAN_DECIDES = False      # the C parser's memory safety is decided by C30 on the same workload
+
+
+# ---------------------------------------------------------------------------
+# declaration contexts
+
+KEYWORDS = set('char short int long signed unsigned float double _Bool void _Complex const volatile '
+               'struct union enum __cdecl __stdcall restrict inline static extern typedef auto '
+               'register sizeof return if else for while do switch case default break continue goto '
+               '_Alignas _Alignof _Atomic _Generic _Noreturn _Static_assert _Thread_local bool '
+               'FILE WINAPI unix linux i386 asm typeof'.split())
+
+STD_NAMES = ['int8_t', 'uint8_t', 'int16_t', 'uint16_t', 'int32_t', 'uint32_t', 'int64_t',
+             'uint64_t', 'intptr_t', 'uintptr_t', 'ptrdiff_t', 'size_t', 'ssize_t', 'wchar_t',
+             'int_least8_t', 'uint_least8_t', 'int_least16_t', 'uint_least16_t', 'int_least32_t',
+             'uint_least32_t', 'int_least64_t', 'uint_least64_t', 'int_fast8_t', 'uint_fast8_t',
+             'int_fast16_t', 'uint_fast16_t', 'int_fast32_t', 'uint_fast32_t', 'int_fast64_t',
+             'uint_fast64_t', 'intmax_t', 'uintmax_t', 'char16_t', 'char32_t',
+             '_cffi_float_complex_t', '_cffi_double_complex_t', 'FILE', 'bool']
+EXT_NAMED = [n for n in STD_NAMES if n not in TS.NAMED_PRIMS]
+
+# families of adversarial identifiers: members of one family are prefixes /
+# extensions of each other or of a keyword / standard type name
+FAMILIES = [
+    ['in', 'int_', 'int_x', 'intx', 'INT', 'inte', 'integer'],
+    ['lon', 'longer', 'long_', 'longlong'],
+    ['shor', 'shorts', 'short_'],
+    ['signe', 'signed_', 'unsigne', 'unsigned_', 'unsignedint'],
+    ['cha', 'chars', 'char_', 'charp'],
+    ['floa', 'floats', 'doubl', 'doubles', 'double_'],
+    ['voi', 'void_', 'voidp', 'volatil', 'volatile_'],
+    ['cons', 'const_', 'constant'],
+    ['struc', 'structs', 'struct_', 'unio', 'unions', 'union_', 'enu', 'enums', 'enum_'],
+    ['_Boo', '_Bool_', '_Boolean', '_Comple', '_Complex_', 'boo', 'bool_', 'boolean'],
+    ['__cdec', '__cdecl_', '__stdcal', '__stdcall_'],
+    ['int8_', 'int8_tt', 'uint8', 'uint8_tt', 'int9_t', 'uint8x_t', 'int24_t', 'intx_t'],
+    ['size_', 'size_tt', 'ssize', 'ssize_tt', 'xsize_t', 'sssize_t'],
+    ['intptr', 'intptr_tt', 'uintptr', 'ptrdiff', 'ptrdiff_tt', 'intmin_t', 'intmax_', 'uintmax'],
+    ['wchar', 'wchar_tt', 'wchar2_t', 'char16', 'char16_tt', 'char32_', 'char8_t'],
+    ['int_least8', 'uint_least9_t', 'int_fast8_tt', 'int_fast8x_t', 'uint_fast16', 'uint_fast1_t'],
+    ['FIL', 'FILE_', 'FILEX', 'FILE_t'],
+    ['b', 'ab', 'abc', 'abc_', 'abc_t', 'abc_t1', 'abc_t10', 'abc_t100'],
+    ['A', 'AB', 'ABC', 'ABC_', 'ABC_1', 'ABC_10'],
+    ['z', 'zz', 'zzz', 'zzzz', 'z_', 'z__', 'z_t'],
+    ['x', 'x0', 'x00', 'x000', 'x1', 'x_t', 'xt'],
+    ['my_t', 'my_tt', 'my_', 'my', 'm'],
+    ['__', '_1', '_1_', '___', '_t', '__t'],
+]
+
+
+def _rename_plan(rnd, ordinary, tags, macros=()):
+    """old name -> adversarial name; ordinary identifiers (typedefs, constants,
+    enumerators) are pairwise distinct, tags are pairwise distinct, a tag may
+    equal an ordinary identifier - but not a '#define' constant: in the C text
+    given to gcc the macro would replace the tag"""
+    plan = {}
+    for group in (ordinary, tags):
+        fams = list(FAMILIES)
+        rnd.shuffle(fams)
+        taken = set(plan[m] for m in macros if m in plan)
+        pool = [n for f in fams for n in f if n not in taken]
+        todo = list(group)
+        rnd.shuffle(todo)
+        for old, new in zip(todo, pool):
+            plan[old] = new
+    return plan
+
+
+class Cx(object):
+    """a declaration context derived from a seed: text (whole and in include
+    parts), matching C source, the declared names"""
+
+    def __init__(self, seed):
+        self.seed = seed
+        rnd = random.Random(seed)
+        c = GC.Ctx(rnd, prefix='q%d_' % (seed % 100000), nd=rnd.choice([4, 8, 12]), funcs=False,
+                   globals_=False)
+        rv = random.Random(seed * 31 + 7)
+        self.adv = rv.random() < 0.5
+        self.nparts = rv.choice([1, 1, 1, 2, 3])
+        typedefs = [d['name'] for d in c.typedefs]
+        structs = [d['name'] for d in c.items if d['kind'] == 'agg' and d['agg']['kind'] == 'struct']
+        unions = [d['name'] for d in c.items if d['kind'] == 'agg' and d['agg']['kind'] == 'union']
+        enums = [d['name'] for d in c.enums]
+        consts = [(d['name'], d['value']) for d in c.consts]
+        enumerators = [(en, v) for e in c.enums for en, v in e['values']]
+        texts = [d['text'] for d in c.items]
+        ctexts = [(d['ctext'] if d['kind'] == 'const' else d['text']) for d in c.items]
+        owner = {}                      # constant name -> index of its declaration
+        for i, d in enumerate(c.items):
+            if d['kind'] == 'const':
+                owner[d['name']] = i
+        self.fntypedefs = []
+        if self.adv:
+            X = ['%sx%d' % (c.p, i) for i in range(12)]
+            extra = ['typedef struct { int f1; char f2; } %s;' % X[0],
+                     'typedef union { int f1; char f2; } %s;' % X[1],
+                     'typedef enum { %s, %s = 7 } %s;' % (X[10].upper(), X[11].upper(), X[2]),
+                     'typedef struct %s %s;' % (X[3], X[4]),
+                     'typedef struct %s *%s;' % (X[3], X[5]),
+                     'typedef int %s(int, char *);' % X[6],
+                     'typedef void %s(void);' % X[7],
+                     'typedef %s *%s;' % (X[6], X[8]),
+                     'typedef long %s[3];' % X[9]]
+            texts += extra
+            ctexts += extra
+            typedefs += [X[0], X[1], X[2], X[4], X[5], X[8], X[9]]
+            structs.append(X[3])
+            fntd = [X[6], X[7]]
+            enumerators += [(X[10].upper(), 0), (X[11].upper(), 7)]
+            plan = _rename_plan(rv, typedefs + fntd + [n for n, _ in consts] +
+                                [n for n, _ in enumerators], structs + unions + enums,
+                                macros=[n for n, _ in consts])
+            rx = re.compile(r'\b(' + '|'.join(re.escape(k) for k in sorted(plan, key=len,
+                                                                         reverse=True)) + r')\b')
+            ren = lambda t: rx.sub(lambda m: plan[m.group(1)], t)
+            texts = [ren(t) for t in texts]
+            ctexts = [ren(t) for t in ctexts]
+            r1 = lambda n: plan.get(n, n)
+            typedefs = [r1(n) for n in typedefs]
+            structs = [r1(n) for n in structs]
+            unions = [r1(n) for n in unions]
+            enums = [r1(n) for n in enums]
+            consts = [(r1(n), v) for n, v in consts]
+            enumerators = [(r1(n), v) for n, v in enumerators]
+            owner = dict((r1(n), i) for n, i in owner.items())
+            self.fntypedefs = [r1(n) for n in fntd]
+        self.typedefs, self.structs, self.unions, self.enums = typedefs, structs, unions, enums
+        self.consts, self.enumerators = consts, enumerators
+        # include parts: consecutive runs of declarations (a declaration only
+        # refers to earlier ones)
+        # (All declarations with *numbered* anonymous aggregates - nested 'struct { }'
+        # members - stay in one module: modules that include each other number them
+        # independently, '$1' of the includer then resolves to '$1' of the included
+        # module; that defect belongs to the include() properties, not to the parsers.)
+        n = len(texts)
+        anon = [i for i, t in enumerate(texts) if re.search(r'\b(struct|union)\s*\{', t)
+                and not t.startswith('typedef')]
+        valid = [j for j in range(1, n) if not anon or j <= anon[0] or j > anon[-1]]
+        k = min(self.nparts, len(valid) + 1)
+        inner = sorted(rv.sample(valid, k - 1))
+        cuts = [0] + inner + [n]
+        self.parts = ['\n'.join(texts[cuts[i]:cuts[i + 1]]) + '\n' for i in range(k)]
+        self.nparts = k
+        self.text = '\n'.join(texts) + '\n'
+        self.ctext = '\n'.join(ctexts) + '\n'
+        # constants that are not declared by the last module of an include chain
+        self.included_consts = [nm for nm, v in consts if owner[nm] < cuts[k - 1]]
+
+    def c_source(self):
+        return '\n'.join(['#include <stdint.h>', '#include <stddef.h>', '#include <sys/types.h>',
+                          '#include <wchar.h>', '#include <uchar.h>', self.ctext])
+
+    def names(self, all_consts=False):
+        inc = set(self.included_consts)
+        cs = [(n, v) for n, v in self.consts if n not in inc] + list(self.enumerators)
+        if not all_consts:
+            cs = [(n, v) for n, v in cs if 0 < v < 5000]
+        return dict(typedefs=list(self.typedefs), structs=list(self.structs),
+                    unions=list(self.unions), enums=list(self.enums), consts=[n for n, v in cs])
 
 
 def generate(ctx):
@@ -27,8 +209,67 @@ def generate(ctx):
     nctx = ctx.scale(40, 400)
     per = 4
     seeds = [rng.getrandbits(40) for _ in range(nctx)]
-    return None, [{'seeds': seeds[i:i + per], 'nstr': ctx.scale(700, 2000)}
-                  for i in range(0, nctx, per)]
+    # a few contexts get the C parser of a *compiled* (API mode) module.  The modules
+    # are built by the system compiler while the children already work: the contexts
+    # are taken from the last cases and a child waits for the builder's result file
+    napi = ctx.scale(2, 10)
+    single = [s for s in seeds if Cx(s).nparts == 1]
+    api = single[-napi:]
+    setup = {'api': build_api(ctx, api, wait=False)}
+    return setup, [{'seeds': seeds[i:i + per], 'nstr': ctx.scale(460, 1600),
+                    'api': [s for s in seeds[i:i + per] if s in api]}
+                   for i in range(0, nctx, per)]
+
+
+API_BUILD = []           # [thread, result holder] of the running build
+
+
+def build_api(ctx, seeds, wait=True):
+    """-> {str(seed): directory that holds (will hold) the module _c07api_<seed>}"""
+    if not seeds:
+        return {}
+    import threading
+    from vlib import modbuild
+    d = os.path.join(ctx.tmp, 'api')
+    specs = []
+    for s in seeds:
+        cx = Cx(s)
+        specs.append({'name': '_c07api_%d' % s, 'kind': 'api', 'cdef': cx.text,
+                      'source': cx.c_source(), 'dir': d})
+    holder = {}
+
+    def work():
+        try:
+            holder['res'] = modbuild.build_modules(ctx, specs, cflags='-O0 -w')
+        except Exception as e:
+            holder['exc'] = '%s: %s' % (type(e).__name__, e)
+    th = threading.Thread(target=work)
+    th.daemon = True
+    th.start()
+    API_BUILD[:] = [th, holder, list(seeds)]
+    if wait:
+        collect_api(ctx)
+    return dict((str(s), d) for s in seeds)
+
+
+def collect_api(ctx):
+    if not API_BUILD:
+        return
+    th, holder, seeds = API_BUILD
+    del API_BUILD[:]
+    th.join(900)
+    res = holder.get('res') or {}
+    for s in seeds:
+        r = res.get('_c07api_%d' % s) or {'error': holder.get('exc', 'builder did not finish')}
+        if r.get('ok'):
+            ctx.count('api_modules_built')
+        else:
+            ctx.inconclusive('API module for context %d did not build: %s' %
+                             (s, (r.get('error') or '')[-300:]))
+
+
+def replay_setup(ctx, case):
+    return {'api': build_api(ctx, case.get('api', []))}
 
 
 def child_setup(setup, wd):
@@ -36,22 +277,11 @@ def child_setup(setup, wd):
     warnings.simplefilter('ignore')
     sys.path.insert(0, wd)
     import _cffi_backend
-    return {'wd': wd, 'bare': _cffi_backend.FFI()}
+    return {'wd': wd, 'bare': _cffi_backend.FFI(), 'api': (setup or {}).get('api', {})}
 
 
 def make_ctx(seed):
-    rnd = random.Random(seed)
-    return GC.Ctx(rnd, prefix='q%d_' % (seed % 100000), nd=rnd.choice([4, 8, 12]), funcs=False,
-                  globals_=False)
-
-
-def names_of(c):
-    structs = [d['name'] for d in c.items if d['kind'] == 'agg' and d['agg']['kind'] == 'struct']
-    unions = [d['name'] for d in c.items if d['kind'] == 'agg' and d['agg']['kind'] == 'union']
-    consts = [d['name'] for d in c.consts if 0 < d['value'] < 5000] + \
-        [en for e in c.enums for en, v in e['values'] if 0 < v < 5000]
-    return dict(typedefs=[d['name'] for d in c.typedefs], structs=structs, unions=unions,
-                enums=[d['name'] for d in c.enums], consts=consts)
+    return Cx(seed)
 
 
 def meaning(ffi, t, depth=0):
@@ -79,10 +309,6 @@ def over_agg(t):
     if k == 'function':
         return over_agg(t.result) or any(over_agg(a) for a in t.args)
     return False
-
-
-def typedef_names(c):
-    return set(d['name'] for d in c.typedefs)
 
 
 def same_meaning(m1, m2, tdn):
@@ -220,6 +446,33 @@ def fix_voidparam(toks):
     return out
 
 
+def fix_fnq(toks):
+    """normalisation 7: the parameter list of a *function* declarator (a '(' that
+    follows a word - a type or parameter name or a pointer qualifier - or '*',
+    not ')' as in '(*)(...)')
+    whose first parameter starts with cv-qualifiers: move these qualifiers
+    behind the specifier words ('int (const char *)' -> 'int (char const *)').
+    The C parser takes '(' + qualifier for grouping parentheses; the class has
+    its own directed probe (function-parameter-list-starts-with-qualifier)"""
+    out = list(toks)
+    i = 1
+    while i < len(out) - 1:
+        if out[i] == '(' and out[i + 1] in QUALS and (out[i - 1][0].isalnum() or out[i - 1][0] in '_$*'):
+            j = i + 1
+            while j < len(out) and out[j] in QUALS:
+                j += 1
+            k = j
+            while k < len(out) and out[k] not in DELIM and out[k] not in QUALS and \
+                    (out[k][0].isalpha() or out[k][0] in '_$'):
+                k += 1
+                if out[k - 1] not in SPEC_WORDS and out[k - 1] not in ('struct', 'union', 'enum'):
+                    break          # a type name or tag ends the specifier run
+            if k > j:
+                out[i + 1:k] = out[j:k] + out[i + 1:j]
+        i += 1
+    return out
+
+
 def undeclared_tag(toks, declared):
     for i, x in enumerate(toks[:-1]):
         if x in ('struct', 'union', 'enum'):
@@ -264,45 +517,258 @@ def make_fix_names(known):
     return fix
 
 
-def child_case(st, case):
+# ---------------------------------------------------------------------------
+# extended string generator (never token-mutated)
+
+EXT_LENS = ['0', '00', '0x0', '1', '65535', '65536', '0xabcdef', '0XABCDEF', '0xAbCdEf',
+            '012345670', '2147483647', '2147483648', '0x7fffffff', '0x80000000', '4294967295',
+            '4294967296', '0xFFFFFFFF', '0x100000000', '9223372036854775807',
+            '0x7fffffffffffffff', '0X7FFFFFFFFFFFFFFF', '0777777777777777777777',
+            '9223372036854775808', '0x8000000000000000', '01000000000000000000000',
+            '18446744073709551615', '0xffffffffffffffff', '18446744073709551616',
+            '0x10000000000000000', '99999999999999999999999999']
+WS = [' ', ' ', '  ', '\t', '\n', '\r', '\f', '\v', ' \t ', '\r\n', '\n\n']
+
+
+class TGenX(TS.TGen):
+    """TGen plus: every standard type name, boundary / non-positive / huge
+    array lengths, function-typed parameters, long parameter lists, deeper
+    nesting, whitespace variation"""
+
+    def __init__(self, rng, lens=(), **kw):
+        TS.TGen.__init__(self, rng, **kw)
+        self.lenvals = dict((x, literal_value(x)) for x in EXT_LENS)
+        self.lenvals.update(dict(lens))
+        self.lens = [n for n, v in lens]    # all named constants, whatever their value
+        self.feat = set()
+        self.maxdepth, self.maxargs = 4, 3
+
+    def base(self, allow_void=False):
+        if self.rng.random() < 0.2:
+            self.feat.add('typename')
+            return ('named', self.rng.choice(EXT_NAMED))
+        return TS.TGen.base(self, allow_void)
+
+    def gen(self, depth=0):
+        rng = self.rng
+        r = rng.random()
+        if depth >= self.maxdepth or r < 0.3:
+            return self.base(allow_void=depth > 0 and rng.random() < 0.2)
+        if r < 0.6:
+            return ('ptr', self.gen(depth + 1))
+        if r < 0.8:
+            if rng.random() < 0.5:
+                self.feat.add('arraylen')
+                n = ('const', rng.choice(EXT_LENS + self.lens + self.lens))
+            else:
+                n = rng.choice([None, 0, 1, 2, 3, 7, 8, 10, 64, 255, 1000])
+            return ('array', self.gen(depth + 1), n)
+        return ('ptr', self.func(depth))
+
+    def func(self, depth, minargs=0):
+        rng = self.rng
+        nargs = rng.randrange(minargs, (self.maxargs if depth <= 1 else 3) + 1)
+        if nargs > 3:
+            self.feat.add('manyargs')
+        args = []
+        for _ in range(nargs):
+            if rng.random() < 0.2 and depth + 2 <= self.maxdepth:
+                # a parameter of *function* type (with parameters of its own: an empty
+                # list after a name is what the recorded 'declarator-name-present'
+                # repair removes)
+                a = self.func(depth + 2, minargs=1)
+                self.feat.add('fnparam')
+            else:
+                a = self.gen(depth + 2)
+                while a == ('prim', 'void'):
+                    a = self.gen(depth + 2)
+                if a[0] == 'array' and isinstance(a[2], tuple) and \
+                        not 0 <= self.lenvals.get(a[2][1], 0) <= SSIZE_MAX:
+                    # the outermost length of an array *parameter* is dropped by the
+                    # in-line parser (the parameter is a pointer): a length that no
+                    # array can have is outside the common grammar there
+                    a = ('array', a[1], 3)
+            args.append(a)
+        res = self.gen(depth + 2)
+        return ('func', args, res, bool(nargs) and rng.random() < 0.2)
+
+    def xstring(self):
+        """-> (string, tokens, features); the string may differ from
+        TS.join(tokens) in its white space only"""
+        rng = self.rng
+        while True:
+            self.feat = set()
+            self.maxdepth = 6 if rng.random() < 0.15 else 4
+            self.maxargs = rng.choice([3, 3, 3, 6, 10])
+            if self.maxdepth > 4:
+                self.feat.add('deep')
+            toks = fix_fnq(self.render(self.gen()))
+            if len(toks) <= 160:
+                break
+        s = TS.join(toks)
+        r = rng.random()
+        if r < 0.2:
+            self.feat.add('whitespace')
+            s = ''.join(rng.choice(WS) if ch == ' ' else ch for ch in s)
+            s = rng.choice(['', '', '\t', '\n ', ' \r']) + s + rng.choice(['', '', '\n', ' \t', '\v'])
+        elif r < 0.35:
+            self.feat.add('whitespace')
+            out = []
+            for i, t in enumerate(toks):
+                if i and (toks[i - 1][-1].isalnum() or toks[i - 1][-1] in '_$') and \
+                        (t[0].isalnum() or t[0] in '_$'):
+                    out.append(' ')
+                out.append(t)
+            s = ''.join(out)
+        return s, toks, set(self.feat)
+
+
+SSIZE_MAX = 2 ** 63 - 1
+
+
+def literal_value(x):
+    if x[:2] in ('0x', '0X'):
+        return int(x, 16)
+    return int(x, 8) if x[0] == '0' and len(x) > 1 else int(x, 10)
+
+
+def neutral_lengths(toks, special):
+    """the same tokens with every boundary / zero / negative / huge / named array
+    length replaced by a small literal.  `special`: token -> value"""
+    out = list(toks)
+    for i in range(1, len(out) - 1):
+        if out[i - 1] == '[' and out[i + 1] == ']' and out[i] in special:
+            out[i] = '3'
+    return out
+
+
+JUNK = [')', ']', ';', '&', ',', ', int', ', ...', '3', '#', '@', '\\', '"', '\xe9', '?', 'x y',
+        '1x', '}', '{', '=', '= 0', ':', ': 3', '.', '..', '->', '+', '-', '!', '~', '%', '^', '|',
+        '<', '>', '/', "'", '`', '\x01', '\x7f', '€']
+BADNUM = ['08', '09', '019', '0779', '0x', '0X', '1x', '0xG', '0x1G', '1e3', '1.5', '1f', '12ab',
+          '0b', '1_0', '10e', '0x.8', '1.', '.5', '3 4', '3,4']
+
+
+def kname_of(kind):
+    return {'AR': 'accepted-by-inline-parser-only', 'RA': 'accepted-by-c-parser-only',
+            'AA': 'different-meaning'}[kind]
+
+
+def open_context(st, cx):
+    """-> (in-line FFI, FFI using the C parser, how the latter was made)"""
     import importlib
     from cffi import FFI
+    ffi1 = FFI()
+    ffi1.cdef(cx.text)
+    apidir = st['api'].get(str(cx.seed))
+    if apidir and cx.nparts == 1:
+        import time, json
+        resfile = os.path.join(apidir, '_c07api_%d.spec.json.result' % cx.seed)
+        t0 = time.time()
+        r = None
+        while r is None:
+            try:
+                with open(resfile) as f:
+                    r = json.load(f)
+            except (OSError, ValueError):   # the parent is still compiling it
+                if time.time() - t0 > 600:
+                    raise RuntimeError('API module was not built in time')
+                time.sleep(0.5)
+        if not r.get('ok'):
+            raise RuntimeError('API module did not build: %s' % (r.get('error') or '')[-300:])
+        if apidir not in sys.path:
+            sys.path.insert(0, apidir)
+        importlib.invalidate_caches()
+        return ffi1, importlib.import_module('_c07api_%d' % cx.seed).ffi, 'api'
+    prev = None
+    for i, part in enumerate(cx.parts):
+        fb = FFI()
+        if prev is not None:
+            fb.include(prev)
+        fb.cdef(part)
+        modname = '_c07_%d_%d' % (cx.seed, i)
+        fb.set_source(modname, None)
+        fb.emit_python_code(os.path.join(st['wd'], modname + '.py'))
+        prev = fb
+    importlib.invalidate_caches()
+    return ffi1, importlib.import_module(modname).ffi, ('include%d' % cx.nparts
+                                                         if cx.nparts > 1 else 'outofline')
+
+
+def child_case(st, case):
     rep = core.ChildRep()
     dis = []
     for seed in case['seeds']:
         c = make_ctx(seed)
-        text = c.cdef_text()
         try:
-            ffi1 = FFI()
-            ffi1.cdef(text)
-            fb = FFI()
-            fb.cdef(text)
-            modname = '_c07_%d' % seed
-            fb.set_source(modname, None)
-            fb.emit_python_code(os.path.join(st['wd'], modname + '.py'))
-            ffi2 = importlib.import_module(modname).ffi
+            ffi1, ffi2, how = open_context(st, c)
         except Exception as e:
             rep.bad('harness-setup', 'context setup failed: %s: %s :: %s' %
-                    (type(e).__name__, e, text[:300]), [seed, None])
+                    (type(e).__name__, e, c.text[:300]), [seed, None])
             continue
         rnd = random.Random(seed ^ 0x5bd1e995)
-        g = TS.TGen(rnd, **names_of(c))
+        nm = c.names()
+        nmall = c.names(all_consts=True)
+        g = TS.TGen(rnd, **nm)
         g0 = TS.TGen(rnd)
-        tdn = typedef_names(c)
-        nm = names_of(c)
+        inc = set(c.included_consts)
+        gx = TGenX(rnd, lens=[(n, v) for n, v in c.consts + c.enumerators if n not in inc], **nm)
+        gx0 = TGenX(rnd)
+        special = dict((x, literal_value(x)) for x in EXT_LENS)
+        special.update(dict(c.consts + c.enumerators))
+        tdn = set(c.typedefs)
         decl_tags = set([('struct', x) for x in nm['structs']] + [('union', x) for x in nm['unions']]
                         + [('enum', x) for x in nm['enums']])
         rep.stat('contexts')
-        known = set(nm['typedefs']) | set(nm['consts']) | set(
-            w for n in TS.NAMED_PRIMS for w in n.split())
+        rep.stat('contexts_' + how)
+        if c.adv:
+            rep.stat('contexts_adversarial_names')
+        known = set(nm['typedefs']) | set(nmall['consts']) | set(c.included_consts) | \
+            set(c.fntypedefs) | set(STD_NAMES) | set(w for n in TS.NAMED_PRIMS for w in n.split())
         fix_names = make_fix_names(known)
-        for i in range(case['nstr']):
+
+        def outcome(x):
+            try:
+                a = ffi1.typeof(x)
+            except Exception:
+                a = None
+            try:
+                b = ffi2.typeof(x)
+            except Exception:
+                b = None
+            if a is None and b is None:
+                return 'RR'
+            if a is not None and b is not None:
+                m1, m2 = meaning(ffi1, a), meaning(ffi2, b)
+                if same_meaning(m1, m2, tdn):
+                    return 'AA='
+                return 'AA'
+            return 'AR' if a is not None else 'RA'
+
+        def show(f, x):
+            try:
+                return repr(f.typeof(x))
+            except Exception as e:
+                return type(e).__name__
+
+        accepted = []          # well-formed strings accepted by both (for the probes)
+        only = case.get('only')
+        for i in range(1 if only is not None else case['nstr']):
             bare = rnd.random() < 0.15
-            gg = g0 if bare else g
-            s, toks = gg.string()
-            mutated = rnd.random() < 0.35
-            if mutated:
-                s, toks = gg.mutate(toks)
+            ext = rnd.random() < 0.3
+            mutated = False
+            feats = ()
+            if only is not None:
+                s, bare, ext = only, False, True
+                toks = GC.tokenize_line(s)
+            elif ext:
+                s, toks, feats = (gx0 if bare else gx).xstring()
+            else:
+                gg = g0 if bare else g
+                s, toks = gg.string()
+                mutated = rnd.random() < 0.35
+                if mutated:
+                    s, toks = gg.mutate(toks)
             detail = [seed, s]
             if undeclared_tag(toks, decl_tags):
                 rep.stat('skipped_undeclared_tag')      # outside the stated grammar
@@ -321,49 +787,58 @@ def child_case(st, case):
             rep.case((seed, s), nontrivial=nontriv, sample={'string': s, 'inline': r1 or repr(t1),
                                                             'cparser': r2 or repr(t2)})
             rep.stat('mutated' if mutated else 'wellformed')
-            def outcome(x):
-                try:
-                    a = ffi1.typeof(x)
-                except Exception:
-                    a = None
-                try:
-                    b = ffi2.typeof(x)
-                except Exception:
-                    b = None
-                if a is None and b is None:
-                    return 'RR'
-                if a is not None and b is not None:
-                    m1, m2 = meaning(ffi1, a), meaning(ffi2, b)
-                    if same_meaning(m1, m2, tdn):
-                        return 'AA='
-                    return 'AA'
-                return 'AR' if a is not None else 'RA'
+            if ext:
+                rep.stat('ext_strings')
+                for ft in feats:
+                    rep.stat('ext_' + ft)
             kind = outcome(s)
             if kind == 'AA=':
                 rep.stat('both_accept')
                 if t1 is t2:
                     rep.stat('identical_objects')
+                if not mutated and len(accepted) < 6 and len(s) < 120:
+                    accepted.append(s)
             elif kind == 'RR':
                 rep.stat('both_reject')
             else:
                 rep.stat('disagreements')
-                # which syntactic repair (if any) makes the two parsers agree?
-                expl = None
-                for name, fn in (('qualifier-between-specifier-words', fix_quals),
-                                 ('nested-grouping-parens', fix_parens),
-                                 ('array-length-expression', fix_arraylen),
-                                 ('void-parameter-with-name-or-qualifier', fix_voidparam),
-                                 ('declarator-name-present', fix_names),
-                                 ('calling-convention-position', fix_cc),
-                                 ('qualifier-position+nested-parens',
-                                  lambda t: fix_parens(fix_quals(t))),
-                                 ('several-repairs', lambda t: fix_names(fix_voidparam(
-                                     fix_arraylen(fix_parens(fix_quals(fix_cc(t)))))))):
-                    rt = fn(toks)
-                    if rt != toks and outcome(TS.join(rt)) in ('AA=',):
-                        expl = name
-                        break
-                dis.append([seed, s, kind, expl, r1 or repr(t1), r2 or repr(t2), mutated])
+                plain = TS.join(toks)
+                attributed = False
+                if ext and only is None:
+                    # is the disagreement owed to one of the extended lexical classes alone?
+                    if plain != s and outcome(plain) in ('AA=', 'RR'):
+                        rep.bad('ext-whitespace:' + kname_of(kind), '%r: in-line -> %s, C parser -> %s; '
+                                'with single blanks %r both parsers agree' %
+                                (s, r1 or repr(t1), r2 or repr(t2), plain), detail)
+                        attributed = True
+                    else:
+                        nt = neutral_lengths(toks, special)
+                        if nt != toks and outcome(TS.join(nt)) in ('AA=', 'RR'):
+                            rep.bad('ext-array-length:' + kname_of(kind), '%r: in-line -> %s, C parser '
+                                    '-> %s; with a small literal length both parsers agree' %
+                                    (s, r1 or repr(t1), r2 or repr(t2)), detail)
+                            attributed = True
+                if not attributed:
+                    # which syntactic repair (if any) makes the two parsers agree?
+                    expl = None
+                    for name, fn in (('qualifier-between-specifier-words', fix_quals),
+                                     ('nested-grouping-parens', fix_parens),
+                                     ('array-length-expression', fix_arraylen),
+                                     ('void-parameter-with-name-or-qualifier', fix_voidparam),
+                                     ('declarator-name-present', fix_names),
+                                     ('calling-convention-position', fix_cc),
+                                     ('qualifier-position+nested-parens',
+                                      lambda t: fix_parens(fix_quals(t))),
+                                     ('several-repairs', lambda t: fix_names(fix_voidparam(
+                                         fix_arraylen(fix_parens(fix_quals(fix_cc(t)))))))):
+                        rt = fn(toks)
+                        if rt != toks:
+                            rt = fix_fnq(rt)
+                        if rt != toks and outcome(TS.join(rt)) in ('AA=',):
+                            expl = name
+                            break
+                    dis.append([seed, s, kind, expl, r1 or repr(t1), r2 or repr(t2), mutated,
+                                plain if ext and only is None else s])
             if bare:
                 # the context-free C parser must agree with the populated one
                 try:
@@ -375,6 +850,164 @@ def child_case(st, case):
                 if (t3 is None) != (t2 is None) or (t3 is not None and t3 is not t2):
                     rep.bad('bare-vs-populated-cparser', '%r: _cffi_backend.FFI() -> %s, module '
                             'ffi -> %s' % (s, r3 or repr(t3), r2 or repr(t2)), detail)
+
+        # ---- directed probes -------------------------------------------------
+        def probe(cls, x, counter=None):
+            rep.stat('probe_' + (counter or cls).replace('-', '_'))
+            k = outcome(x)
+            rep.case((seed, 'probe', x), nontrivial=True)
+            if k in ('AA=', 'RR'):
+                return k
+            rep.bad('probe:%s:%s' % (cls, kname_of(k)), '[%s context] %r: in-line -> %s, C parser -> %s'
+                    % (how, x, show(ffi1, x), show(ffi2, x)), [seed, x])
+            return k
+
+        declared = set(c.typedefs) | set(c.fntypedefs) | set(n for n, v in c.consts) | \
+            set(n for n, v in c.enumerators)
+        prnd = random.Random(seed ^ 0x2545F491)
+        # 1. every standard type name, through the populated and the bare C parser
+        k0 = prnd.randrange(len(STD_NAMES))
+        for n in [STD_NAMES[(k0 + 4 * j) % len(STD_NAMES)] for j in range(10)]:
+            x = prnd.choice(['%s', '%s *', 'const %s', '%s const *', '%s (*)(%s)', '%s *[2]']).replace(
+                '%s', n)
+            probe('standard-typename', x)
+            try:
+                t3 = st['bare'].typeof(x)
+            except Exception:
+                t3 = None
+            try:
+                t2 = ffi2.typeof(x)
+            except Exception:
+                t2 = None
+            if t3 is not t2:
+                rep.bad('bare-vs-populated-cparser', '%r: _cffi_backend.FFI() -> %r, module ffi -> %r'
+                        % (x, t3, t2), [seed, x])
+
+        # 2. identifiers one character away from a declared name
+        def near(n):
+            out = [n[:-1], n[1:], n + '_', n + 't', n + '0', n[:-1] + ('x' if n[-1] != 'x' else 'y'),
+                   n.swapcase()]
+            return [v for v in out if v and re.match(r'[A-Za-z_][A-Za-z_0-9]*$', v) and
+                    v not in declared and v not in KEYWORDS and v not in STD_NAMES and
+                    v not in SPEC_WORDS and not re.match(r'a\d+$', v)]
+        tds = list(c.typedefs)
+        prnd.shuffle(tds)
+        for n in tds[:2]:
+            for v in near(n):
+                probe('near-name', prnd.choice(['%s', '%s *', 'int (*)(%s)', '%s (*)(void)'])
+                      % v, 'near_name_typedef')
+        cs = [n for n, v in c.consts + c.enumerators]
+        prnd.shuffle(cs)
+        for n in cs[:2]:
+            for v in near(n):
+                probe('near-name', prnd.choice(['int[%s]', 'char *[%s]', 'long (*)[%s]']) % v,
+                      'near_name_constant')
+        # 3. typedefs of function type
+        for F in c.fntypedefs:
+            for tpl in ('%s', '%s *', '%s * *', '%s *[3]', '%s[3]', 'int (*)(%s *)', '%s *(*)(void)',
+                        'const %s *', '%s (*)(void)'):
+                probe('function-typedef', tpl % F)
+            # (the parameter is adjusted to a pointer to the function type)
+            probe('function-typedef-as-parameter', prnd.choice(
+                ['int (*)(%s)', 'void (*)(int, %s)', 'char *(*)(%s a0, long)']) % F)
+        # 4. constants declared by an included module, as array length
+        for n in c.included_consts:
+            v = dict(c.consts)[n]
+            if 0 <= v < 5000:
+                probe('included-constant-as-array-length',
+                      prnd.choice(['int[%s]', 'char *[%s]', 'short (*)[%s]']) % n)
+        # 5. trailing tokens after a complete type, 6. malformed numbers
+        heads = ['int', 'char *'] + accepted[:3]
+        for j in prnd.sample(JUNK, 12):
+            probe('trailing-token', '%s %s' % (prnd.choice(heads), j))
+        for b in prnd.sample(BADNUM, 8):
+            probe('malformed-number', prnd.choice(['int[%s]', 'char (*)[%s]', 'long *[2][%s]',
+                                                   'int (*)(char[%s])']) % b)
+        # 7. function types: rejected by typeof(), accepted as function pointers
+        #    by callback().  Judged only when the two parsers agree on the
+        #    pointer-to-function spelling of the same tokens (otherwise the string
+        #    carries one of the recorded leniency differences)
+        def cb_type(f, x):
+            try:
+                cb = f.callback(x, lambda *a: None)
+                return f.typeof(cb)
+            except Exception:
+                return None
+
+        def cb_same(x):
+            a, b = cb_type(ffi1, x), cb_type(ffi2, x)
+            return (a is None) == (b is None) and (a is None or same_meaning(
+                meaning(ffi1, a), meaning(ffi2, b), tdn)), a, b
+        for _ in range(4):
+            gx.feat = set()
+            gx.maxdepth, gx.maxargs = 3, 3
+            ft = gx.func(1)
+            if ft[2][0] not in ('prim', 'named', 'tag'):
+                continue              # plain shape only: 'T ( params )'
+            full = gx.render(ft)
+            k = full.index('(')
+            if undeclared_tag(full, decl_tags) or len(full) > 80 or full[-1] != ')':
+                continue
+            full = fix_fnq(full)
+            x = TS.join(full)
+            ptr = TS.join(full[:k] + ['(', '*', ')'] + full[k:])
+            probe('function-type', x)
+            rep.stat('probe_callback_entry')
+            if outcome(ptr) != 'AA=':
+                rep.stat('probe_callback_skipped_pointer_form_not_agreed')
+                continue
+            ok, a, b = cb_same(x)
+            if not ok:
+                rep.bad('entry-point:callback', '[%s context] callback(%r, f): in-line -> %r, C parser '
+                        '-> %r; typeof(%r) agrees' % (how, x, a, b, ptr), [seed, x])
+        # 7b. a function declarator whose parameter list starts with a qualifier:
+        #     as function-typed parameter and as callback() type (context-free
+        #     strings: once per case)
+        first_of_case = seed == case['seeds'][0]
+        for tpl in (() if not first_of_case else (
+                    'int (*)(int (const char *))', 'void (*)(long a0 (volatile int, char), int)',
+                    'char *(*)(double, short (const volatile long *))')):
+            probe('function-parameter-list-starts-with-qualifier', tpl)
+        for tpl in (() if not first_of_case else (
+                'int (*)(int (int))', 'void (*)(char *(long, char), int a1 (void), ...)',
+                'long (*)(double a0 (short, ...), int (* (char)) (long))')):
+            probe('function-typed-parameter', tpl)
+        for x in (() if not first_of_case else (
+                'int (const char *)', 'void (volatile int, long)', 'long (const void *, size_t)')):
+            rep.stat('probe_function_parameter_list_starts_with_qualifier')
+            ok, a, b = cb_same(x)
+            if not ok:
+                rep.bad('probe:function-parameter-list-starts-with-qualifier:' + (
+                    'accepted-by-inline-parser-only' if b is None else 'accepted-by-c-parser-only'
+                    if a is None else 'different-meaning'),
+                    '[%s context] callback(%r, f): in-line -> %r, C parser -> %r' % (how, x, a, b),
+                    [seed, x])
+        # 8. the other entry points that take a type string
+        for x in accepted:
+            for api in ('sizeof', 'alignof', 'getctype', 'cast'):
+                rep.stat('probe_entry_' + api)
+                res = []
+                for f in (ffi1, ffi2):
+                    try:
+                        if api == 'cast':
+                            v = f.typeof(f.cast(x, 0))
+                            v = meaning(f, v)
+                        else:
+                            v = getattr(f, api)(x)
+                        res.append(('ok', v))
+                    except Exception as e:
+                        res.append(('exc',))
+                if api == 'cast':
+                    ok = res[0][0] == res[1][0] and (res[0][0] == 'exc' or
+                                                     same_meaning(res[0][1], res[1][1], tdn))
+                elif api == 'getctype':
+                    # the display name of an aggregate may be typedef-forced in-line
+                    ok = res[0][0] == res[1][0] and (res[0] == res[1] or over_agg(ffi2.typeof(x)))
+                else:
+                    ok = res[0] == res[1]
+                if not ok:
+                    rep.bad('entry-point:' + api, '[%s context] %s(%r): in-line -> %r, C parser -> %r'
+                            % (how, api, x, res[0], res[1]), [seed, x])
     res = rep.result()
     res['dis'] = dis
     return res
@@ -384,7 +1017,8 @@ DIS = []
 
 
 def judge(ctx, setup, case, obs):
-    core.absorb(ctx, case, obs, lambda d: {'seeds': [d[0]], 'nstr': case['nstr']})
+    core.absorb(ctx, case, obs, lambda d: {'seeds': [d[0]], 'nstr': 0, 'only': d[1],
+                                           'api': [s for s in case.get('api', []) if s == d[0]]})
     DIS.extend(obs.get('dis', []))
 
 
@@ -392,6 +1026,7 @@ def finalize(ctx, setup):
     """Disagreements are classified with an independent well-formedness oracle:
     gcc -fsyntax-only on 'void p(<string>);' after the context's declarations."""
     import subprocess, re
+    collect_api(ctx)
     byseed = {}
     for d in DIS:
         byseed.setdefault(d[0], []).append(d)
@@ -403,12 +1038,15 @@ def finalize(ctx, setup):
         c = make_ctx(seed)
         lines = ['#include <stdint.h>', '#include <stddef.h>', '#include <sys/types.h>',
                  '#include <wchar.h>', '#include <uchar.h>', '#include <stdbool.h>',
+                 '#include <stdio.h>',
+                 'typedef float _Complex _cffi_float_complex_t;',
+                 'typedef double _Complex _cffi_double_complex_t;',
                  '#define __cdecl __attribute__((__cdecl__))',
                  '#define __stdcall __attribute__((__stdcall__))']
-        lines += c.cdef_text().split('\n')
+        lines += c.ctext.split('\n')
         base = len(lines)
         for i, d in enumerate(ds):
-            lines.append('void p_%d(%s);' % (i, d[1].replace('\n', ' ')))
+            lines.append('void p_%d(%s);' % (i, d[7].replace('\n', ' ')))
         path = os.path.join(ctx.tmp, 'wf_%d.c' % seed)
         with open(path, 'w') as f:
             f.write('\n'.join(lines) + '\n')
@@ -424,7 +1062,7 @@ def finalize(ctx, setup):
         if any(b <= base for b in badlines):
             ctx.inconclusive('gcc rejects the context declarations of seed %d' % seed)
             continue
-        for i, (sd, s, kind, expl, r1, r2, mutated) in enumerate(ds):
+        for i, (sd, s, kind, expl, r1, r2, mutated, gform) in enumerate(ds):
             wellformed = (base + i + 1) not in badlines
             # gcc's attribute syntax is laxer than the calling-convention
             # keywords: they are only well-formed directly in front of '*'
@@ -432,17 +1070,14 @@ def finalize(ctx, setup):
             if ncc != len(re.findall(r'\(\s*__(?:stdcall|cdecl)\s*\*', s)):
                 wellformed = False
             ctx.count('disagreements_wellformed' if wellformed else 'disagreements_illformed')
-            kname = {'AR': 'accepted-by-inline-parser-only', 'RA': 'accepted-by-c-parser-only',
-                     'AA': 'different-meaning'}[kind]
+            kname = kname_of(kind)
             if mutated and (not wellformed or expl is None):
                 # token-level mutants: the two parsers differ in leniency on
                 # strings outside the generated grammar (recorded finding)
                 mech = 'near-miss-string:%s:%s' % ('well-formed-c' if wellformed else 'ill-formed-c',
                                                    kname)
             elif not wellformed:
-                mech = 'ill-formed-string:' + {'AR': 'accepted-by-inline-parser-only',
-                                               'RA': 'accepted-by-c-parser-only',
-                                               'AA': 'different-meaning'}[kind]
+                mech = 'ill-formed-string:' + kname
             else:
                 mech = 'well-formed:' + (expl or 'unexplained-' + kind)
             ctx.violation(mech, '%r: in-line -> %s, C parser -> %s' % (s, r1, r2),
